@@ -9,7 +9,8 @@ random_state omitted or literally None; 2 = check_random_state(None) / check_ran
 `<x> if random_state else <y>`): the valid seed 0 silently takes the fallback; 5 = the raw constructor parameter
 `self.random_state` handed on by a strategy / wrapper (anything but `check_random_state(self.random_state, ...)` of
 skactiveml.utils, which copies, or `deepcopy(self.random_state)`): with a RandomState instance the caller's generator is
-advanced and the per-call copy `self.random_state_` is bypassed."""
+advanced and the per-call copy `self.random_state_` is bypassed; 6 = a selection helper used as a VALUE (handed to functools.partial, stored as a
+callback, passed on) without a bound random_state: whoever calls it later draws from the global generator."""
 import ast
 import importlib
 import inspect
@@ -83,6 +84,20 @@ def scan(root=REPO + "/skactiveml"):
                                                             or (isinstance(par.func, ast.Attribute) and par.func.attr in ("deepcopy",)))
                     if not okcall:
                         sites.append((5, os.path.relpath(path, REPO), funcs.get(id(node), "<module>"), node.lineno, "raw self.random_state handed on"))
+            # kind 6: a helper escapes as a value
+            for node in ast.walk(tree):
+                if isinstance(node, ast.Name) and node.id in HELPERS and isinstance(node.ctx, ast.Load):
+                    par = parents.get(id(node))
+                    if isinstance(par, ast.Call) and par.func is node:
+                        continue                      # an ordinary call: kind 1 looks at it
+                    bound = False
+                    if isinstance(par, ast.Call) and isinstance(par.func, (ast.Name, ast.Attribute)) and \
+                            (par.func.id if isinstance(par.func, ast.Name) else par.func.attr) == "partial":
+                        rs = {k.arg: k.value for k in par.keywords if k.arg}.get("random_state")
+                        bound = rs is not None and not (isinstance(rs, ast.Constant) and rs.value is None)
+                    if not bound:
+                        sites.append((6, os.path.relpath(path, REPO), funcs.get(id(node), "<module>"), node.lineno,
+                                      f"{node.id} used as a value without a bound random_state"))
             for node in ast.walk(tree):
                 if not isinstance(node, ast.Call):
                     continue
